@@ -181,9 +181,25 @@ func vc04ToRef(p *Poly) (o mldsa.Poly) {
 }
 
 func vc04GenPoly(r *lib.Rng, bound uint32) (p Poly) {
-	mode := r.Intn(6)
+	mode := r.Intn(8)
+	// block patterns: within every block of B coefficients one half is at the
+	// bound and the other at 0 (or 1): the sums the butterflies accumulate
+	// without reduction are then maximal in one operand and minimal in the
+	// other of a + 256q - b, layer by layer
+	blk := 2 << uint(r.Intn(8))
+	inv := r.Intn(2)
+	low := uint32(r.Intn(2))
 	for i := range p {
 		switch mode {
+		case 6, 7:
+			if (i/(blk/2))%2 == inv {
+				p[i] = bound - 1
+			} else {
+				p[i] = low
+			}
+			if mode == 7 && r.Intn(16) == 0 {
+				p[i] = uint32(r.U64() % uint64(bound))
+			}
 		case 0:
 			p[i] = bound - 1
 		case 1:
